@@ -46,7 +46,7 @@ def gen_commands(rnd, n, idx):
         # the command macro's own argument-case option: #[tauri::command(rename_all = "snake_case")] makes Tauri read snake_case keys
         macro_case = rnd.choice([None, None, None, "snake_case", "snake_case", "camelCase"])
         cmds.append({"name": "cmd_%d_%d" % (idx, c), "raw": rnd.random() < 0.2, "params": params, "mut": [rnd.random() < 0.15 for _ in params],
-                     "macro_case": macro_case, "macro_form": rnd.randrange(3)})
+                     "macro_case": macro_case, "macro_form": rnd.randrange(6)})
     return cmds
 
 
@@ -58,7 +58,9 @@ def project_src(cmds):
         ps = ", ".join("%s%s: %s" % ("mut " if m and p[0] != "_" else "", p[0], p[1]) for p, m in zip(c["params"], c["mut"]))
         attr = "#[tauri::command]"
         if c.get("macro_case"):
-            attr = ['#[tauri::command(rename_all = "%s")]', '#[tauri::command(async, rename_all = "%s")]', '#[tauri::command(rename_all = "%s", root = "crate")]'][c["macro_form"]] % c["macro_case"]
+            attr = ['#[tauri::command(rename_all = "%s")]', '#[tauri::command(async, rename_all = "%s")]', '#[tauri::command(rename_all = "%s", root = "crate")]',
+                    '#[tauri::command(root = "crate", rename_all = "%s")]', '#[tauri::command(async, root = "crate", rename_all = "%s")]',
+                    '#[command(rename_all = "%s")]'][c["macro_form"]] % c["macro_case"]
         src.append("%s\npub async fn %s%s%s(%s) -> Result<(), String> {\n    todo!()\n}\n\n" % (attr, "r#" if c.get("raw") else "", c["name"], generic, ps))
     return [("lib.rs", "".join(src))]
 
